@@ -45,6 +45,37 @@ func runReentrancyChild(c *core.Ctx) {
 		return
 	}
 	ops := mk()
+	// cold mode: the very first use of the package in this process is a pair of operations running concurrently (lazily
+	// built tables, sync.Once-free "init on first use", first-use-wins caches); the sequential values are taken afterwards
+	if cold := os.Getenv("VERIF_RE_COLD"); cold != "" {
+		var i, j int
+		fmt.Sscanf(cold, "%d,%d", &i, &j)
+		i, j = i%len(ops), j%len(ops)
+		res := make([]string, 4)
+		var wg sync.WaitGroup
+		start := make(chan struct{})
+		for k, oi := range []int{i, j, i, j} {
+			wg.Add(1)
+			go func(k, oi int) {
+				defer wg.Done()
+				<-start
+				res[k] = ops[oi].run()
+			}(k, oi)
+		}
+		close(start)
+		wg.Wait()
+		mism, first := 0, ""
+		for k, oi := range []int{i, j, i, j} {
+			if w := ops[oi].run(); w != res[k] {
+				mism++
+				if first == "" {
+					first = fmt.Sprintf("%s, run as the first use of the package next to %s, returned %.80q; afterwards it returns %.80q", ops[oi].name, ops[[]int{j, i, j, i}[k]].name, res[k], w)
+				}
+			}
+		}
+		fmt.Printf("REENTRANCY id=%s pairs=1 mismatches=%d %s\n", id, mism, first)
+		return
+	}
 	want := make([]string, len(ops))
 	for i, o := range ops {
 		want[i] = o.run()
@@ -107,12 +138,53 @@ func reentrancyPass(c *core.Ctx, id string) {
 		c.Set("reentrancy_pass", "build/vcheck-race not found: skipped")
 		return
 	}
+	reentrancyRun(c, id, bin, "", "")
+	// the portable (purego) variant of the code has its own statics: same pass in build/vcheck-purego-race where it exists
+	if pbin := filepath.Join(core.VerifDir, "build", "vcheck-purego-race"); id == "C06" || id == "C20" {
+		if _, err := os.Stat(pbin); err == nil {
+			reentrancyRun(c, id, pbin, "", "purego")
+			reentrancyRun(c, id, pbin, "0,1", "purego")
+		}
+	}
+	// cold starts: fresh processes whose first use of the package is a concurrent pair (i, j)
+	if mk, ok := reentrancyOps[id]; ok {
+		n := len(mk())
+		if n > 0 {
+			var pairs [][2]int
+			for i := 0; i < n && len(pairs) < 6; i++ {
+				pairs = append(pairs, [2]int{i, i}, [2]int{i, (i + 1) % n})
+			}
+			if c.Thorough() {
+				pairs = pairs[:0]
+				for i := 0; i < n; i++ {
+					for j := 0; j < n; j++ {
+						pairs = append(pairs, [2]int{i, j})
+					}
+				}
+			}
+			core.Par(len(pairs), func(k int) {
+				reentrancyRun(c, id, bin, fmt.Sprintf("%d,%d", pairs[k][0], pairs[k][1]), "")
+			})
+			c.Set("reentrancy_cold_starts", int64(len(pairs)))
+		}
+	}
+}
+
+// reentrancyRun runs one child of the re-entrancy pass (cold: "i,j" for a cold-start pair) and reports.
+func reentrancyRun(c *core.Ctx, id, bin, cold, variant string) {
+	tag := "reentrancy"
+	if cold != "" {
+		tag = "reentrancy-cold-start"
+	}
+	if variant != "" {
+		tag = variant + "/" + tag
+	}
 	tmp, _ := os.MkdirTemp("", "reentrancy")
 	defer os.RemoveAll(tmp)
 	ctx, cancel := context.WithTimeout(context.Background(), 10*time.Minute)
 	defer cancel()
 	cmd := exec.CommandContext(ctx, bin, "REENTRANCY", c.Tier)
-	cmd.Env = append(os.Environ(), "VERIF_DIR="+tmp, "VERIF_RE_ID="+id, "GORACE=halt_on_error=1 exitcode=66", "VERIF_CHILD=1")
+	cmd.Env = append(os.Environ(), "VERIF_DIR="+tmp, "VERIF_RE_ID="+id, "VERIF_RE_COLD="+cold, "GORACE=halt_on_error=1 exitcode=66", "VERIF_CHILD=1")
 	var out, errb bytes.Buffer
 	cmd.Stdout, cmd.Stderr = &out, &errb
 	err := cmd.Run()
@@ -124,22 +196,24 @@ func reentrancyPass(c *core.Ctx, id string) {
 			log = log[:6000]
 		}
 		if strings.Contains(log, "iota-crypto-demo/pkg/") {
-			c.Violate(id+"/reentrancy/data-race", "two concurrent calls share unsynchronised state (race detector report in the replay file); results of one call can be corrupted by another", map[string]interface{}{"report": log}, "", nil)
+			c.Violate(id+"/"+tag+"/data-race", "two concurrent calls share unsynchronised state (race detector report in the replay file); results of one call can be corrupted by another", map[string]interface{}{"report": log}, "", nil)
 		} else {
 			c.Abort("race detector fired outside the repository: %s", log)
 		}
 	case m == nil:
 		if strings.Contains(errb.String(), "iota-crypto-demo/pkg/") {
-			c.Violate(id+"/reentrancy/crash", "the concurrent pass died inside repository code: "+tail(errb.String(), 1500), nil, "", nil)
+			c.Violate(id+"/"+tag+"/crash", "the concurrent pass died inside repository code: "+tail(errb.String(), 1500), nil, "", nil)
 		} else {
 			c.Set("reentrancy_pass", fmt.Sprintf("no result (%v): %s", err, tail(errb.String(), 300)))
 		}
 	case strings.Contains(m[4], "unstable="):
 		c.Set("reentrancy_pass", "skipped: "+m[4])
 	default:
-		c.Set("reentrancy_pairs_run", m[2])
+		if cold == "" && variant == "" {
+			c.Set("reentrancy_pairs_run", m[2])
+		}
 		if m[3] != "0" {
-			c.Violate(id+"/reentrancy/wrong-result", "a call returned a different result while another call was running: "+m[4], nil, "", nil)
+			c.Violate(id+"/"+tag+"/wrong-result", "a call returned a different result while another call was running: "+m[4], nil, "", nil)
 		}
 	}
 }
